@@ -1,28 +1,353 @@
 package main
 
-// Heap observers used by C13/C15/C16/C17/C18 (extended later).
+// Heap observers: snapshots (C15), retained size (C17), actor footprints (C16), pointer discipline (C18).
 
-import "go/types"
+import (
+	"fmt"
+	"go/types"
+	"strings"
+)
 
-type Observers struct {
-	events []string
+type snapshot struct {
+	objs  map[*Object]bool
+	cells map[*Cell]Value
+	order []*Cell
 }
 
-func newObservers() *Observers { return &Observers{} }
+type access struct {
+	readers map[int]bool
+	writers map[int]bool
+}
 
-func (p *Path) noteRead(c *Cell)  {}
-func (p *Path) noteWrite(c *Cell) {}
+type Observers struct {
+	events    []string // unsafe-pointer discipline events
+	snaps     []*snapshot
+	poolOps   int
+	actor     int // 0 = none
+	acc       map[*Cell]*access
+	conflicts []string
+	globalWr  []string
+	watermark int // objects with id < watermark pre-exist the current read-only window
+	readerWin bool
+	readerWr  []string
+	casts     map[string]bool
+}
 
-func (p *Path) noteCast(c *Cell, t types.Type, ok bool) {}
+func newObservers() *Observers {
+	return &Observers{acc: map[*Cell]*access{}, casts: map[string]bool{}}
+}
 
-func (p *Path) disciplineEvent(msg string) {
-	if p.obs != nil {
-		p.obs.events = append(p.obs.events, msg)
+func (p *Path) noteRead(c *Cell) {
+	o := p.obs
+	if o == nil || o.actor == 0 {
+		return
+	}
+	a := o.acc[c]
+	if a == nil {
+		a = &access{readers: map[int]bool{}, writers: map[int]bool{}}
+		o.acc[c] = a
+	}
+	if !a.readers[o.actor] {
+		a.readers[o.actor] = true
+		for w := range a.writers {
+			if w != o.actor && len(o.conflicts) < 10 {
+				o.conflicts = append(o.conflicts, fmt.Sprintf("%s: read by actor %d of a location written by actor %d (object %s) at %s", cellName(c), o.actor, w, c.obj.site, p.where()))
+			}
+		}
 	}
 }
 
-func (p *Path) obsPool(kind string, c *Cell) {}
-func (p *Path) obsPoolTransfer(v Value)      {}
-func (p *Path) obsPoolRelease(v Value)       {}
+func (p *Path) noteWrite(c *Cell) {
+	o := p.obs
+	if o == nil {
+		return
+	}
+	if o.readerWin && c.obj != nil && c.obj.id < o.watermark && len(o.readerWr) < 10 {
+		o.readerWr = append(o.readerWr, fmt.Sprintf("store to pre-existing %s (object %s) at %s", cellName(c), c.obj.site, p.where()))
+	}
+	if c.obj != nil && c.obj.owner == ownerGlobal && p.curOwner != ownerGlobal && len(o.globalWr) < 10 {
+		o.globalWr = append(o.globalWr, fmt.Sprintf("store to package-level state %s at %s", c.obj.site, p.where()))
+	}
+	if o.actor == 0 {
+		return
+	}
+	a := o.acc[c]
+	if a == nil {
+		a = &access{readers: map[int]bool{}, writers: map[int]bool{}}
+		o.acc[c] = a
+	}
+	if !a.writers[o.actor] {
+		a.writers[o.actor] = true
+		for w := range a.writers {
+			if w != o.actor && len(o.conflicts) < 10 {
+				o.conflicts = append(o.conflicts, fmt.Sprintf("%s: written by actors %d and %d (object %s) at %s", cellName(c), w, o.actor, c.obj.site, p.where()))
+			}
+		}
+		for r := range a.readers {
+			if r != o.actor && len(o.conflicts) < 10 {
+				o.conflicts = append(o.conflicts, fmt.Sprintf("%s: written by actor %d after a read by actor %d (object %s) at %s", cellName(c), o.actor, r, c.obj.site, p.where()))
+			}
+		}
+	}
+}
 
-func (p *Path) obsPrimitive(name string, args []Value) (Value, bool) { return nil, false }
+func cellName(c *Cell) string {
+	var parts []string
+	for x := c; x.parent != nil; x = x.parent {
+		if st, ok := x.parent.typ.Underlying().(*types.Struct); ok {
+			parts = append([]string{"." + st.Field(x.idx).Name()}, parts...)
+		} else {
+			parts = append([]string{fmt.Sprintf("[%d]", x.idx)}, parts...)
+		}
+	}
+	root := c
+	for root.parent != nil {
+		root = root.parent
+	}
+	return fmt.Sprintf("%v%s", root.typ, strings.Join(parts, ""))
+}
+
+func (p *Path) noteCast(c *Cell, t types.Type, ok bool) {
+	if p.obs != nil {
+		p.obs.casts[fmt.Sprintf("%v as %v compatible=%v", c.typ, t, ok)] = true
+	}
+}
+
+func (p *Path) disciplineEvent(msg string) {
+	if p.obs != nil {
+		p.obs.events = append(p.obs.events, msg+" at "+p.where())
+	}
+}
+
+func (p *Path) obsPool(kind string, c *Cell) {
+	if p.obs != nil {
+		p.obs.poolOps++
+	}
+}
+
+// obsPoolRelease: ownership of the object leaves the releasing actor (happens-before through the pool).
+func (p *Path) obsPoolRelease(v Value) {
+	o := p.obs
+	if o == nil {
+		return
+	}
+	if iv, ok := v.(IfaceV); ok {
+		if pt, ok := iv.v.(Ptr); ok && pt.c != nil {
+			p.forgetObject(pt.c.obj)
+		}
+	}
+}
+
+func (p *Path) obsPoolTransfer(v Value) {}
+
+func (p *Path) forgetObject(obj *Object) {
+	var rec func(c *Cell)
+	rec = func(c *Cell) {
+		delete(p.obs.acc, c)
+		for _, k := range c.kids {
+			rec(k)
+		}
+	}
+	rec(obj.root)
+}
+
+// reachable collects the objects reachable from v through pointers, slices, strings, interfaces, closures.
+func (p *Path) reachable(v Value, seen map[*Object]bool, order *[]*Object) {
+	var visitCell func(c *Cell)
+	var visitVal func(v Value)
+	visitObj := func(o *Object) {
+		if o == nil || seen[o] {
+			return
+		}
+		seen[o] = true
+		*order = append(*order, o)
+		visitCell(o.root)
+	}
+	visitCell = func(c *Cell) {
+		if c.kids != nil {
+			for _, k := range c.kids {
+				visitCell(k)
+			}
+			return
+		}
+		visitVal(c.val)
+	}
+	visitVal = func(v Value) {
+		switch x := v.(type) {
+		case Ptr:
+			if x.c != nil {
+				visitObj(x.c.obj)
+			}
+		case IdxPtr:
+			visitObj(x.arr.obj)
+		case SliceV:
+			if x.arr != nil {
+				visitObj(x.arr.obj)
+			}
+		case StrV:
+			if x.arr != nil {
+				visitObj(x.arr.obj)
+			}
+		case AggV:
+			for _, e := range x.elems {
+				visitVal(e)
+			}
+		case IfaceV:
+			if x.typ != nil {
+				visitVal(x.v)
+			}
+		case FuncV:
+			for _, e := range x.env {
+				visitVal(e)
+			}
+		case TupleV:
+			for _, e := range x {
+				visitVal(e)
+			}
+		}
+	}
+	visitVal(v)
+}
+
+func (p *Path) takeSnapshot(v Value) *snapshot {
+	s := &snapshot{objs: map[*Object]bool{}, cells: map[*Cell]Value{}}
+	var order []*Object
+	p.reachable(v, s.objs, &order)
+	for _, o := range order {
+		var rec func(c *Cell)
+		rec = func(c *Cell) {
+			if c.kids != nil {
+				for _, k := range c.kids {
+					rec(k)
+				}
+				return
+			}
+			s.cells[c] = c.val
+			s.order = append(s.order, c)
+		}
+		rec(o.root)
+	}
+	return s
+}
+
+func isLeafValueCell(c *Cell) bool {
+	if c.parent == nil {
+		return false
+	}
+	// walk up to the field directly under a *LeafNode struct
+	x := c
+	for x.parent != nil {
+		if st, ok := x.parent.typ.Underlying().(*types.Struct); ok {
+			if n, ok := x.parent.typ.(*types.Named); ok && strings.HasSuffix(n.Obj().Name(), "LeafNode") {
+				return st.Field(x.idx).Name() == "value"
+			}
+		}
+		x = x.parent
+	}
+	return false
+}
+
+// unchanged: term stating that everything reachable from v equals the snapshot (mode 1: leaf values may differ).
+func (p *Path) unchanged(s *snapshot, v Value, mode int) (*Term, string) {
+	now := map[*Object]bool{}
+	var order []*Object
+	p.reachable(v, now, &order)
+	if len(now) != len(s.objs) {
+		return p.ts.False, fmt.Sprintf("set of reachable objects changed (%d -> %d)", len(s.objs), len(now))
+	}
+	for o := range now {
+		if !s.objs[o] {
+			return p.ts.False, "a new object became reachable: " + o.site
+		}
+	}
+	res := p.ts.True
+	for _, c := range s.order {
+		old := s.cells[c]
+		if mode == 1 && isLeafValueCell(c) {
+			continue
+		}
+		switch ov := old.(type) {
+		case *Term:
+			nv, ok := c.val.(*Term)
+			if !ok {
+				return p.ts.False, "cell kind changed at " + cellName(c)
+			}
+			if ov != nv {
+				res = p.ts.And(res, p.ts.Eq(ov, nv))
+			}
+		default:
+			if !valuesIdentical(old, c.val) {
+				return p.ts.False, "pointer-carrying cell changed at " + cellName(c)
+			}
+		}
+	}
+	return res, ""
+}
+
+func (p *Path) retainedBytes(v Value) int64 {
+	seen := map[*Object]bool{}
+	var order []*Object
+	p.reachable(v, seen, &order)
+	var n int64
+	for _, o := range order {
+		n += o.size
+	}
+	return n
+}
+
+func (p *Path) obsPrimitive(name string, args []Value) (Value, bool) {
+	o := p.obs
+	switch name {
+	case "vpSnapshot":
+		o.snaps = append(o.snaps, p.takeSnapshot(args[0]))
+		return p.word(uint64(len(o.snaps) - 1)), true
+	case "vpUnchanged", "vpUnchangedButValues":
+		i := p.concreteInt(args[0], "snapshot id")
+		mode := 0
+		if name == "vpUnchangedButValues" {
+			mode = 1
+		}
+		t, why := p.unchanged(o.snaps[i], args[1], mode)
+		if why != "" {
+			p.traceNote("snapshot: " + why)
+		}
+		return t, true
+	case "vpRetained":
+		return p.ts.Const(64, uint64(p.retainedBytes(args[0]))), true
+	case "vpPoolOps":
+		return p.ts.Const(64, uint64(o.poolOps)), true
+	case "vpActor":
+		o.actor = p.concreteInt(args[0], "actor")
+		return nil, true
+	case "vpConflicts":
+		return p.ts.Const(64, uint64(len(o.conflicts)+len(o.globalWr))), true
+	case "vpReaderWindow":
+		on := p.concreteInt(args[0], "reader window")
+		o.readerWin = on != 0
+		if o.readerWin {
+			o.watermark = p.nextObj
+			o.readerWr = nil
+		}
+		return nil, true
+	case "vpReaderWrites":
+		return p.ts.Const(64, uint64(len(o.readerWr))), true
+	case "vpDisciplineEvents":
+		return p.ts.Const(64, uint64(len(o.events))), true
+	case "vpForget":
+		// forget access history of everything reachable (a happens-before edge supplied by the harness)
+		seen := map[*Object]bool{}
+		var order []*Object
+		p.reachable(args[0], seen, &order)
+		for _, ob := range order {
+			p.forgetObject(ob)
+		}
+		return nil, true
+	}
+	return nil, false
+}
+
+func (p *Path) traceNote(s string) {
+	if len(p.notes) < 20 {
+		p.notes = append(p.notes, s)
+	}
+}
